@@ -85,6 +85,11 @@ CLAIMED.update({
          "note": "The variable store is a nested dict: plain variables are proved over dict[str -> value], tracking dicts over one named entry holding dict[str -> value] (string tracking keys) -- other shapes, list-valued variables at end of run, every(), subtotal(), string-to-number conversion of cells are BOUNDED only.",
          "tech": BT},
 })
+CLAIMED.update({
+ "C01": {"cat": "other", "text": "Proved for all inputs along the chain CsvPath.next -> _consider_line -> Matcher.matches -> Expression.matches -> Equality.matches -> Function.matches: lines are yielded once, in file order, exactly when the verdict holds; the verdict is the AND/OR of the component votes taken left to right; Equality dispatches by operator once per line; '==' compares as written or as values; '->' runs its right side iff the left side matched, once per line; a function decides exactly once per line and errors go to the expression; a variable is an existence test (0 and '' exist); not/and/or/yes/no/length and the strict / non-strict AboveBelow comparisons are the documented operators. Bounded: reference evaluation of 150 (thorough 3000) generated (csvpath, file) pairs in AND and OR mode.",
+         "note": "Known findings (genuine, recorded, not repaired): lt()/below()/before() answer <= (numbers and strings); ordinal comparisons treat CSV cells as strings. The other leaf functions of the documented set (in, empty, exists, equals, add, subtract, multiply, divide, mod, concat, lower, upper, ...) are covered by the bounded evaluator only; regex, dates, stats are not covered.",
+         "tech": BT},
+})
 NA_REASON = {}
 m = {
  "version": 1, "setup_cmd": "./setup.sh",
